@@ -91,3 +91,22 @@ pub open spec fn ms_selected_for(old: Seq<&CweModule>, v: Seq<&str>, n: int, m: 
 pub open spec fn ms_picked_for(old: Seq<&CweModule>, v: Seq<&str>, n: int, m: &CweModule, i: int, j: int) -> bool {
     ms_first_of_name(old, i) && *m == *old[i] && 0 <= j < n && old[i].name@ == v[j]@
 }
+
+// ---- `str::split` once more, the way std computes it (the shim contract uses the declarative `ms_is_piece`;
+// ---- lemma_ms_split_pieces proves that both descriptions name the same pieces) ----
+
+/// position of the first `c` in `s` (`s.len()` if there is none)
+pub open spec fn ms_first_sep(s: Seq<char>, c: char) -> int
+    decreases s.len(),
+{
+    if s.len() == 0 || s[0] == c { 0 } else { 1 + ms_first_sep(s.skip(1), c) }
+}
+
+/// `s.split(c)` as std computes it: cut at the first separator, continue behind it; a string without separator is one piece
+pub open spec fn ms_split(s: Seq<char>, c: char) -> Seq<Seq<char>>
+    decreases s.len(),
+{
+    let i = ms_first_sep(s, c);
+    if 0 <= i < s.len() { seq![s.take(i)] + ms_split(s.skip(i + 1), c) } else { seq![s] }
+}
+
